@@ -159,6 +159,9 @@ SPECS['C16'] = {
 }
 
 TLSSRC = ['harness/venv.c']
+PBWRAP = ['-Wl,--wrap=sm3_pbkdf2', '-lpthread', '-ldl', '-lm']
+GCMWRAP2 = ['-Wl,--wrap=sm4_gcm_encrypt', '-lpthread', '-ldl', '-lm']
+GCMWRAP = ['-Wl,--wrap=sm4_gcm_encrypt', '-lcrypto', '-lpthread', '-ldl', '-lm']
 
 SPECS['C06'] = {
     'level': 'fault_enumeration',
@@ -168,8 +171,14 @@ SPECS['C06'] = {
     'rule': 'c06a: per seed (certificate, chain, CRL, CSR, 5 CMS types, PKCS#8 plain/encrypted, SPKI, ECPrivateKey, SM2/SM9 signatures, ciphertexts and keys, PEM, hex/base64/URI/HTTP text, handshake records of honest TLCP/TLS1.2 runs): 9 substitutions x every offset + every truncation + per TLV header 11 length encodings + 14 tags + 9 boundary values; capacity block. c06b: per configuration and handshake record: substitutions at every payload offset (quick: thinned), length-field rewrites, oversize certificate lists, with state guard.',
     'bound': {'quick': '1 mutation, offsets thinned (step 3) for seeds > 2500 bytes', 'thorough': '1 mutation at every offset'},
     'assumptions': ['two simultaneous mutations out of scope', 'file / socket plumbing of the command-line tools not covered'],
-    'quick': [J('c06a', 'asan', srcs=TLSSRC, deadline=150)],
-    'thorough': [J('c06a', 'asan', srcs=TLSSRC, deadline=1500)],
+    'quick': [J('c06a', 'asan', srcs=TLSSRC, libs=PBWRAP, deadline=150), J('c06a', 'msan', srcs=TLSSRC, libs=PBWRAP, deadline=150),
+              J('c06b', 'fast', srcs=TLSSRC, libs=GCMWRAP, deadline=150, env={'C06B_STEP': '3', 'C06B_DENSE': '160', 'C06B_SUBS': '0x1ff'}),
+              J('c06b', 'asan', srcs=TLSSRC, libs=GCMWRAP, deadline=150, env={'C06B_STEP': '32', 'C06B_DENSE': '96', 'C06B_SUBS': '0xc9'}),
+              J('c06b', 'msan', srcs=TLSSRC, libs=GCMWRAP2, deadline=150, env={'C06B_STEP': '64', 'C06B_DENSE': '64', 'C06B_SUBS': '0xc1'})],
+    'thorough': [J('c06a', 'asan', srcs=TLSSRC, libs=PBWRAP, deadline=1500), J('c06a', 'msan', srcs=TLSSRC, libs=PBWRAP, deadline=1500),
+              J('c06b', 'fast', srcs=TLSSRC, libs=GCMWRAP, deadline=1500, env={'C06B_STEP': '1', 'C06B_DENSE': '160', 'C06B_SUBS': '0x1ff'}),
+              J('c06b', 'asan', srcs=TLSSRC, libs=GCMWRAP, deadline=1500, env={'C06B_STEP': '2', 'C06B_DENSE': '160', 'C06B_SUBS': '0x1ff'}),
+              J('c06b', 'msan', srcs=TLSSRC, libs=GCMWRAP2, deadline=1500, env={'C06B_STEP': '4', 'C06B_DENSE': '160', 'C06B_SUBS': '0x1ff'})],
     'budget': {'quick': 170, 'thorough': 1700},
 }
 SPECS['C08'] = {
